@@ -92,8 +92,21 @@ def check(formulas, timeout_s=20, cross=False, seed=0):
     if seed:
         s.set("random_seed", seed % 1000)
     s.add(*formulas)
+    quantified = any(_has_quantifier(f) for f in formulas)
+    if quantified:
+        # first a short attempt; then the split over the Boolean unknowns; then the full budget
+        s.set("timeout", int(min(timeout_s, 3) * 1000))
     r = s.check()
     res = {"answer": str(r), "model": None, "backend": "z3-4.12.6-api", "cross": None}
+    if quantified and r == z3.unknown:
+        split = _case_split(formulas, timeout_s, seed)
+        if split is not None:
+            res.update(split)
+            r = None
+        else:
+            s.set("timeout", int(timeout_s * 1000))
+            r = s.check()
+            res["answer"] = str(r)
     if r == z3.sat:
         res["model"] = s.model()
     elif r == z3.unknown:
@@ -109,6 +122,70 @@ def check(formulas, timeout_s=20, cross=False, seed=0):
                 res["answer"] = "disagree"
     res["time_s"] = time.perf_counter() - t0
     return res
+
+
+def _bool_consts(formulas, limit=6):
+    seen, out, todo = set(), [], list(formulas)
+    while todo:
+        e = todo.pop()
+        if e.get_id() in seen:
+            continue
+        seen.add(e.get_id())
+        if z3.is_quantifier(e):
+            todo.append(e.body())
+            continue
+        if z3.is_const(e) and z3.is_bool(e) and e.decl().kind() == z3.Z3_OP_UNINTERPRETED:
+            out.append(e)
+            if len(out) > limit:
+                return None
+        todo.extend(e.children())
+    return sorted(out, key=lambda c: c.decl().name())
+
+
+def _case_split(formulas, timeout_s, seed=0):
+    """a quantified query the solvers leave open is split over the values of its (few) Boolean unknowns; each
+    case is simplified and decided on its own.  unsat iff every case is unsat; a sat case is a model of the whole"""
+    import itertools
+
+    if not any(_has_quantifier(f) for f in formulas):
+        return None
+    flags = _bool_consts(formulas)
+    if not flags:
+        return None
+    for vals in itertools.product((False, True), repeat=len(flags)):
+        subs = [(f, z3.BoolVal(v)) for f, v in zip(flags, vals)]
+        fs = [z3.simplify(z3.substitute(f, *subs)) for f in formulas]
+        if any(z3.is_false(f) for f in fs):
+            continue
+        s = z3.Solver()
+        s.set("timeout", int(timeout_s * 1000))
+        if seed:
+            s.set("random_seed", seed % 1000)
+        s.add(*fs)
+        s.add(*[f == v for f, v in subs])
+        r = s.check()
+        if r == z3.sat:
+            return {"answer": "sat", "model": s.model(), "backend": "z3-4.12.6-api+case-split"}
+        if r == z3.unknown:
+            for name, ans in run_cli(fs, timeout_s):
+                if ans == "unsat":
+                    break
+            else:
+                return None
+    return {"answer": "unsat", "model": None, "backend": "z3-4.12.6-api+case-split"}
+
+
+def _has_quantifier(e):
+    seen, todo = set(), [e]
+    while todo:
+        x = todo.pop()
+        if x.get_id() in seen:
+            continue
+        seen.add(x.get_id())
+        if z3.is_quantifier(x):
+            return True
+        todo.extend(x.children())
+    return False
 
 
 def model_values(model, consts):
